@@ -107,6 +107,29 @@ def translators(repo):
                     shapes.append("(mkFB 0%%nat 0%%nat None %s %s %s None %s [] [] false [], %s, %s)"
                                   % (nat(args), opt(va), opt(vk), nat(kwo), _codes(sig), _codes(inv)))
     lines.append("Definition gen_texts : list (fbuilder * text * text) := [\n  %s]." % ";\n  ".join(shapes))
+    # the names chosen for the generated source (def name, name the wrapper is bound to), read off __source__
+    # of real wraps results for a grid of ASCII function names x parameter names (Model/C13_Names.v)
+    import keyword
+    lines.append("Definition gen_keywords : list text := [%s]." % "; ".join(_codes(k) for k in keyword.kwlist))
+    rows = []
+    for fname in ["f", "_call", "-call", "_call_", "class", "1x", "a-b", "", "_func", "__call", "None", "x y", "_"]:
+        for params in ([], ["_call"], ["_call", "_call_"], ["a"], ["_func"], ["_call__", "_call_", "_call"],
+                       ["a", "*_call"], ["a", "**_call_"], ["_call", "*", "_call_"]):
+            ns = {}
+            exec("def _tmp_(%s): pass" % ", ".join(params), ns)
+            f = ns["_tmp_"]
+            f.__name__ = fname
+            g = fu.wraps(f)(lambda *a, **k: None)
+            src = getattr(g, "__source__", None)
+            m = re.fullmatch(r"def ([^\s(]+)\(([^)]*)\):\n    return ([^\s(]+)\(([^)]*)\)", src or "")
+            if not m:
+                raise RuntimeError("cannot read def name / call name off __source__: %r" % (src,))
+            if g.__name__ != fname:
+                raise RuntimeError("__name__ not restored: %r" % (g.__name__,))
+            pnames = [q.lstrip("*") for q in params if q.strip("*")]
+            rows.append("(%s, [%s], %s, %s)" % (_codes(fname), "; ".join(_codes(q) for q in pnames),
+                                                _codes(m.group(1)), _codes(m.group(3))))
+    lines.append("Definition gen_names : list (text * list text * text * text) := [\n  %s]." % ";\n  ".join(rows))
     return {"C13_Gen": "\n".join(lines) + "\n"}
 
 
